@@ -1417,6 +1417,10 @@ func (self *_parser) parseExpression() ast.Expression {
 }
 
 func (self *_parser) checkComma(from, to file.Idx) {
+	if from > to || int(from) < self.base || int(to)-self.base > len(self.str) {
+		// the range can be inverted or out of bounds after a syntax error (which has already been reported)
+		return
+	}
 	if pos := strings.IndexByte(self.str[int(from)-self.base:int(to)-self.base], ','); pos >= 0 {
 		self.error(from+file.Idx(pos), "Comma is not allowed here")
 	}
